@@ -3,7 +3,7 @@
 cd "$(dirname "$0")/.." || exit 2
 mode=$1; shift
 props=${*:-"C01 C02 C03 C04 C05 C06 C07 C08 C09 C10 C11 C12 C13 C14 C15 C16 C17 C18 C19 C20"}
-for p in $props; do for k in 1 2 3; do
+for p in $props; do for k in 1 2 3 4; do
   id=$p-$((k+24))
   if [ "$mode" = verify ]; then
     if [ -f /tmp/seed9_$p/out/$k/patch.diff ] && [ ! -d seeded/$id ]; then
